@@ -3,7 +3,7 @@
 # silent — against the checks listed as cross-property catchers below. Sequential: /repo is patched in place (git apply / checkout).
 TIER=${1:-quick}; GLOB=${2:-*}
 cd /verif
-declare -A CROSS=( [C02-m1]="C16" [C02-r2m2]="C12" [C12-r2m3]="C03" [C16-r2m2]="C13" [C17-r2m2]="C07" [C19-r2m2]="C04" [C18-r2m3]="C01" [C10-r2m3]="C16" [C02-r4m2]="C13" [C16-r4m3]="C13" [C17-r5m2]="C07" [C03-r3m1]="C12" [C08-r3m3]="C07" [C17-r3m3]="C19" )
+declare -A CROSS=( [C02-m1]="C16" [C02-r2m2]="C12" [C12-r2m3]="C03" [C16-r2m2]="C13" [C17-r2m2]="C07" [C19-r2m2]="C04" [C18-r2m3]="C01" [C10-r2m3]="C16" [C02-r4m2]="C13" [C16-r4m3]="C13" [C17-r5m2]="C07" [C02-r6m1]="C13" [C02-r6m3]="C04" [C03-r3m1]="C12" [C08-r3m3]="C07" [C17-r3m3]="C19" )
 for d in seeded/$GLOB/; do
   s=$(basename $d)
   pid=$(python3 -c "import json;print(json.load(open('$d/meta.json'))['property'])")
